@@ -42,6 +42,7 @@ import (
 	"fmt"
 	"reflect"
 	"sort"
+	"strconv"
 	"strings"
 	"time"
 
@@ -184,9 +185,72 @@ func (e *c08Env) oracleEstimatePod(pod *corev1.Pod) []int64 {
 	return out
 }
 
-// oracleDeadline: the estimation deadline as a function of the pod, its assignment time and the configuration only.
-func (e *c08Env) oracleDeadline(pod *corev1.Pod, ts time.Time) time.Time {
-	return (&podAssignCache{args: e.oracleArgs()}).shouldEstimatePodDeadline(pod, ts)
+// c08NonNegSeconds parses a per-pod "force estimation seconds" annotation: a user-defined number of
+// seconds >= 0 (0 = no forced estimation for this pod); anything else is not a setting.
+func c08NonNegSeconds(s string) (int64, bool) {
+	if s == "" {
+		return 0, false
+	}
+	v, err := strconv.ParseInt(s, 10, 64)
+	if err != nil || v < 0 {
+		return 0, false
+	}
+	return v, true
+}
+
+// oracleDeadline is the harness's OWN statement of when the report is taken not to reflect a placed
+// pod yet because of the configured estimation windows. It is written from the documented
+// configuration semantics and does not call the code under test:
+//
+//   - estimatedSecondsAfterPodScheduled (S): "the force estimation duration after pod condition
+//     PodScheduled transition to True" — the pod stays estimated until (assignment time + S);
+//   - estimatedSecondsAfterInitialized (I): "the force estimation duration after pod condition
+//     Initialized transition to True" — once the pod IS initialized (condition True with a
+//     transition time) it stays estimated until (that time + I), and this window then replaces the
+//     after-scheduled one (S "might be set to a long duration to wait for time consuming init
+//     containers"); a pod that is not initialized yet is governed by S alone;
+//   - with allowCustomizeEstimation a pod's annotations override S / I for that pod (a number >= 0;
+//     0 switches the window off); a window of 0 or an unset option forces nothing.
+//
+// kind: "none", "after-initialized", "after-scheduled", or "after-scheduled/not-initialized-both"
+// (both windows in effect, pod not initialized yet: the long after-scheduled window must hold).
+func (e *c08Env) oracleDeadline(pod *corev1.Pod, ts time.Time) (deadline time.Time, kind string) {
+	a := e.pristine
+	var S, I int64
+	sSet, iSet := false, false
+	if a.AllowCustomizeEstimation {
+		if v, ok := c08NonNegSeconds(pod.Annotations[extension.AnnotationCustomEstimatedSecondsAfterPodScheduled]); ok {
+			S, sSet = v, true
+		}
+		if v, ok := c08NonNegSeconds(pod.Annotations[extension.AnnotationCustomEstimatedSecondsAfterInitialized]); ok {
+			I, iSet = v, true
+		}
+	}
+	if !sSet && a.EstimatedSecondsAfterPodScheduled != nil {
+		S = *a.EstimatedSecondsAfterPodScheduled
+	}
+	if !iSet && a.EstimatedSecondsAfterInitialized != nil {
+		I = *a.EstimatedSecondsAfterInitialized
+	}
+	if I > 0 {
+		for i := range pod.Status.Conditions {
+			cd := &pod.Status.Conditions[i]
+			if cd.Type != corev1.PodInitialized {
+				continue
+			}
+			if cd.Status == corev1.ConditionTrue && !cd.LastTransitionTime.IsZero() {
+				return cd.LastTransitionTime.Add(time.Duration(I) * time.Second), "after-initialized"
+			}
+			break
+		}
+	}
+	if S > 0 && !ts.IsZero() {
+		if I > 0 {
+			return ts.Add(time.Duration(S) * time.Second), "after-scheduled/not-initialized-both"
+		}
+		return ts.Add(time.Duration(S) * time.Second), "after-scheduled"
+	}
+	return time.Time{}, "none"
 }
 
 func (e *c08Env) argsString() string {
@@ -995,6 +1059,7 @@ type c08Assigned struct {
 	obj  *corev1.Pod
 	ts   time.Time // assignment timestamp
 	dl   time.Time // estimation deadline (zero = none)
+	dlK  string    // which window gives the deadline (see oracleDeadline)
 	e    []int64   // the estimator's estimate of obj, vectorised
 	prod bool
 }
@@ -1036,7 +1101,7 @@ func (m *c08Model) assignedOn(node string) []c08Assigned {
 				a.ts = env.clk.Now()
 			}
 		}
-		a.dl = env.oracleDeadline(obj, a.ts)
+		a.dl, a.dlK = env.oracleDeadline(obj, a.ts)
 		a.e = env.oracleEstimatePod(obj)
 		a.prod = extension.GetPodPriorityClassWithDefault(obj) == extension.PriorityProd
 		out = append(out, a)
@@ -1098,6 +1163,24 @@ func (m *c08Model) podEstimateDiffers(node string, pods []c08Assigned) bool {
 	return false
 }
 
+// windowDiffers: does the cache keep, for some assigned pod, an estimation deadline (anchored state
+// podAssignInfo.estimatedDeadline) other than the one the documented window semantics give
+// (oracleDeadline)? Diagnosis only: it narrows the signature of a violation raised by an estimate oracle.
+func (m *c08Model) windowDiffers(node string, pods []c08Assigned) bool {
+	n, ok := m.env.cache.getNodeInfo(node)
+	if !ok || n == nil {
+		return false
+	}
+	n.RLock()
+	defer n.RUnlock()
+	for _, a := range pods {
+		if pi := n.podInfos[a.p.uid]; pi != nil && !pi.estimatedDeadline.Equal(a.dl) {
+			return true
+		}
+	}
+	return false
+}
+
 // c08ReportedPodUsage looks the pod up in the report: its usage vector (nil = the report carries no
 // usage for it) and whether the report flags it as prod.
 func c08ReportedPodUsage(env *c08Env, nm *slov1alpha1.NodeMetric, ns, name string) (u []int64, reportedProd bool) {
@@ -1121,6 +1204,9 @@ func c08ReportInterval(nm *slov1alpha1.NodeMetric) time.Duration {
 
 type c08ExpectStats struct {
 	estimated, reflected, intervalExact, intervalNear, deadlineExact, deadlineNear, withUsage int
+	// pods with a reported usage, assigned longer ago than one report interval, that are estimated
+	// ONLY because an estimation window is still open at the time of the report, by window kind
+	forcedOnlyByWindow map[string]int
 }
 
 // c08Expect recomputes, from the report object and the assigned pods only, what the statement says
@@ -1219,6 +1305,12 @@ func c08Expect(env *c08Env, nm *slov1alpha1.NodeMetric, pods []c08Assigned, md c
 			}
 			if notReflected {
 				st.estimated++
+				if u != nil && base != nil && !a.ts.After(ut.Add(-interval)) {
+					if st.forcedOnlyByWindow == nil {
+						st.forcedOnlyByWindow = map[string]int{}
+					}
+					st.forcedOnlyByWindow[a.dlK]++
+				}
 			} else {
 				st.reflected++
 			}
@@ -1300,6 +1392,9 @@ func c08CheckNode(c *kit.Case, or *kit.Rand, m *c08Model, node string, modes []c
 		if m.podEstimateDiffers(node, pods) {
 			return "C08/estimate/pod-estimate-not-from-scratch"
 		}
+		if m.windowDiffers(node, pods) {
+			return "C08/estimate/estimation-window-not-honoured"
+		}
 		return def
 	}
 	fresh, order := c08Fresh(or, env, node, nm, pods)
@@ -1349,6 +1444,11 @@ func c08CheckNode(c *kit.Case, or *kit.Rand, m *c08Model, node string, modes []c
 			c.Count("boundary_interval_within_1s", st.intervalNear)
 			c.Count("boundary_deadline_exact", st.deadlineExact)
 			c.Count("boundary_deadline_within_1s", st.deadlineNear)
+			for _, k := range []string{"after-initialized", "after-scheduled", "after-scheduled/not-initialized-both"} {
+				if n := st.forcedOnlyByWindow[k]; n > 0 {
+					c.Count("pods_estimated_only_by_window_"+k, n)
+				}
+			}
 		}
 		if !defined {
 			c.Count("cmp_model_skipped_agg_period_not_reported", 1)
